@@ -361,6 +361,21 @@ class FakeStream(object):
     self.chunks = []               # (bytes, frames)
     self.log = ["open"]
     self.errors = []
+    self.is_input = bool(kw.get("input"))
+    self.reads = 0
+
+  def read(self, num_frames, exception_on_overflow=True):
+    """Input device: frame number j of this stream holds the sample 500 + j (float32, one channel)."""
+    self.pa.sched().point("dev.read", self, None, True, "dev%d" % self.sid)
+    self.log.append("read")
+    if self.closed or not self.running:
+      self.errors.append("read from a %s stream" % ("closed" if self.closed else "stopped"))
+      raise BackendError("stream not running")
+    import struct as _struct
+    n = num_frames * int(self.kw.get("channels", 1))
+    data = _struct.pack("%df" % n, *[500.0 + self.reads + i for i in range(n)])
+    self.reads += n
+    return data
 
   def stop_stream(self):
     self.pa.sched().point("dev.stop_stream", self, None, False, "dev%d" % self.sid)
@@ -405,6 +420,11 @@ class FakePyAudio(object):
 
   def open(self, **kw):
     self.sched().point("dev.open", self, None, False, "open")
+    if getattr(self, "fail_next_open", False):
+      # injected environment answer: the device is busy
+      self.fail_next_open = False
+      self.events.append(("open-refused", None))
+      raise BackendError("device unavailable")
     st = FakeStream(self, len(self.all_streams), kw)
     self._streams.add(st)
     self.all_streams.append(st)
